@@ -82,3 +82,85 @@ theorem step_no_failure (c : HCfg) (t : HashTable) (op : Op) (m : Mem) (h : t.In
   | removeAll => rfl
 
 end CC.HashTable
+
+namespace CC.HashTable
+open CC CC.HT CC.Spec
+open CC.Spec.Map (Op Out)
+
+/-- the status and out-value of `cc_hashtable_remove` do not depend on the ledger -/
+theorem remove_status (c : HCfg) (t : HashTable) (k : Key) (m : Mem) (h : t.Inv c) :
+    (t.remove c k m).1 = (if (Map.lookup t.abs k).isSome then .ok else .errKeyNotFound) ∧
+    (t.remove c k m).2.1 = Map.lookup t.abs k := by
+  have hlk : Map.lookup t.abs k = (chainRemove (t.bucket (t.index (keyHash c k))) k).map (·.1) := by
+    rw [abs_eq, lookup_map_pair, find_flat c t h.1 h.2.1 h.2.2.2.1 k, chainRemove_find]
+  unfold remove; simp only
+  rw [hlk]
+  cases chainRemove (t.bucket (t.index (keyHash c k))) k with
+  | none => simp
+  | some r => simp
+
+/-- every failure a history reports is pinned, under every schedule: an entry of the failure list is
+`none`, or `CC_ERR_ALLOC`, or `CC_ERR_MAX_CAPACITY` — and the latter only in a history that ends with
+the maximal capacity `2^31` (the capacity never shrinks) -/
+theorem run_failures_pinned (c : HCfg) (ops : List Op) (t : HashTable) (m : Mem) (h : t.Inv c)
+    (hl : t.size + 2 ≤ liveOf m t.triple) :
+    (∀ f ∈ (t.run c ops m).2.1, f = none ∨ f = some .errAlloc ∨
+        (f = some .errMaxCapacity ∧ (t.run c ops m).2.2.1.capacity = Gen.MAX_POW_TWO)) ∧
+    t.capacity ≤ (t.run c ops m).2.2.1.capacity ∧ (t.run c ops m).2.2.1.capacity ≤ Gen.MAX_POW_TWO := by
+  induction ops generalizing t m with
+  | nil =>
+    refine ⟨fun f hf => by simp [run] at hf, Nat.le_refl _, ?_⟩
+    obtain ⟨k, hk, hc⟩ := h.1
+    simp only [run]; rw [hc]
+    have hM : Gen.MAX_POW_TWO = 2 ^ 31 := by decide
+    rw [hM]; exact Nat.pow_le_pow_right (by omega) (by omega)
+  | cons op ops ih =>
+    have hinv' : (t.step c op m).2.1.Inv c ∧
+        liveOf (t.step c op m).2.2 t.triple + t.size = liveOf m t.triple + (t.step c op m).2.1.size := by
+      cases op with
+      | add k v =>
+        obtain ⟨a1, a2, a3, _⟩ := add_spec c t k v m h
+        refine ⟨a1, ?_⟩
+        by_cases hok : (t.add c k v m).1 = .ok
+        · exact (a2 hok).2.2
+        · have := a3 hok; simp only [step]; omega
+      | get k => exact ⟨h, by simp only [step]; rw [(get_refines c t k m h).2.2]⟩
+      | containsKey k => exact ⟨h, by simp only [step]; rw [(containsKey_refines c t k m h).2]⟩
+      | remove k =>
+        obtain ⟨p1, _, _, p4, p5, p6, _⟩ := remove_spec c t k m h (fun _ => by omega)
+        refine ⟨p1, ?_⟩
+        simp only [step]
+        by_cases hok : (t.remove c k m).1 = .ok
+        · have := p6 hok; omega
+        · have := p5 hok; rw [this.1, this.2]
+      | removeAll =>
+        obtain ⟨r1, _, r3, _, _, r6, _⟩ := removeAll_spec c t m h (by omega)
+        exact ⟨r1, by simp only [step]; omega⟩
+    have hT := step_triple c t op m
+    obtain ⟨i1, i2, i3⟩ := ih (t.step c op m).2.1 (t.step c op m).2.2 hinv'.1 (by rw [hT]; omega)
+    have hle := step_capacity_le c t op m h hl
+    simp only [run]
+    refine ⟨?_, by omega, i3⟩
+    intro f hf
+    rcases List.mem_cons.mp hf with rfl | hf
+    · cases op with
+      | add k v =>
+        simp only [step, failedOf]
+        by_cases hok : (t.add c k v m).1 = .ok
+        · left; rw [hok]
+        · rcases ((add_spec c t k v m h).2.2.1 hok).1 with h1 | h1
+          · right; left; rw [h1]
+          · right; right
+            refine ⟨by rw [h1], ?_⟩
+            have hm := add_maxcap c t k v m h h1
+            have i2' := i2
+            have i3' := i3
+            simp only [step] at i2' i3'
+            omega
+      | get k => left; rfl
+      | containsKey k => left; rfl
+      | remove k => left; rfl
+      | removeAll => left; rfl
+    · exact i1 f hf
+
+end CC.HashTable
